@@ -377,6 +377,62 @@ def check(run):
                     store.remove(t_.hash())
                 except Exception:
                     pass
+        # 2a'+. elements handed out by return_tuple / iteratetask: consumers of different elements are different invocations with their own values
+        from jug import TaskGenerator
+        from jug.task import return_tuple, iteratetask
+        for ci in range(6 if quick else 60):
+            jugenv.reset(store)
+            vals3 = tuple(rng.sample(range(100), 3))
+            root = Task(lib.lit, 8000000 + ci, vals3)
+            elems = list(return_tuple(3)(TaskGenerator(lib.lit))(8100000 + ci, vals3)) + list(iteratetask(root, 3))
+            for t_ in list(jug.task.alltasks):
+                if not t_.can_load():
+                    t_.run()
+            consumers = [Task(lib.same, e_) for e_ in elems]
+            exp_vals = list(vals3) + list(vals3)
+            seen_h = {}
+            for j, (c_, ev_) in enumerate(zip(consumers, exp_vals)):
+                run.count('element_consumers')
+                if not c_.can_load():
+                    c_.run()
+                got_ = value(c_)
+                if lib.canon(got_) != lib.canon(['same', ev_]):
+                    run.fail('consumer-takes-sibling-result', 'elements %s of a task returning %s (return_tuple / iteratetask): the consumer same(element %d) holds %s instead of %s'
+                             % (list(range(3)), vals3, j % 3, lib.canon(got_), lib.canon(['same', ev_])), {'kind': 'element-consumers', 'values': list(vals3), 'index': j})
+                    break
+            run.case(('element-consumers', ci, run.seed), nontrivial=True)
+            for t_ in list(jug.task.alltasks) + consumers:
+                try:
+                    store.remove(t_.hash())
+                except Exception:
+                    pass
+        # 2a''. results that are container *subclasses* (namedtuple-like, dict/list subclasses): a view hands over exactly what the operation gives in Python
+        from jug.utils import identity
+        for ci in range(40 if quick else 400):
+            jugenv.reset(store)
+            inner = [rng.randint(0, 9), lib.Pt(rng.randint(0, 9), 'q'), lib.LL([1, rng.randint(0, 9)])]
+            V = rng.choice([lib.Pt(inner, 5, lib.OD(a=inner[1])), lib.OD(a=lib.Pt(1, inner), b=inner), lib.LL([lib.Pt(3, 4), inner, lib.OD(z=inner[2])]), [lib.Pt(*inner)], (lib.OD(k=lib.LL(inner)),)])
+            root = Task(lib.lit, 7000000 + ci, V)
+            root.run()
+            root.unload()
+            if isinstance(V, dict):
+                k0 = rng.choice(sorted(V))
+                views = [('root[%r]' % k0, root[k0], V[k0])]
+            else:
+                j0 = rng.randrange(len(V))
+                views = [('root[%d]' % j0, root[j0], V[j0]), ('root[0:2]', root[0:2], V[0:2])]
+            views += [('root', root, V), ('identity(root)', identity(root), V)]
+            for label, obj_, exp_ in views:
+                run.count('typed_container_views')
+                try:
+                    got_ = value(obj_)
+                except Exception as e:
+                    got_ = 'EXC %s' % type(e).__name__
+                if lib.canon(got_) != lib.canon(exp_):
+                    run.fail('view-type-fidelity', 'task value %s: value(%s) = %s, the same operation in Python gives %s' % (lib.canon(V)[:120], label, lib.canon(got_)[:120], lib.canon(exp_)[:120]),
+                             {'kind': 'typed-view', 'value': lib.canon(V), 'view': label})
+            run.case(('typed-container', ci, run.seed), nontrivial=True)
+            store.remove(root.hash())
         # 2b. mapped sequences and their slices as views
         from jug.mapreduce import map as jmap
         for n, step in itertools.product(range(0, 10), (2, 3, 4)):
